@@ -137,11 +137,32 @@ Outcome CAT(form_counting_, FORM)(int order, const Mat& X, tapkee::ParametersSet
 }
 #endif
 
+#if FORM == 7
+Outcome form_counting_sequence(const Mat& X, tapkee::ParametersSet ps, Counters& cnt, const std::vector<int>& sequence)
+{
+    const std::vector<int>& cidx = sequence;
+    CK k{&X, &cnt};
+    CD d{&X, &cnt};
+    CF f{&X, &cnt};
+    return guarded([&]() { return tapkee::with(ps).withKernel(k).withDistance(d).withFeatures(f).embedRange(cidx.begin(), cidx.end()); });
+}
+#endif
+
 #if FORM == 10
 Outcome form_matrix(const Mat& X, tapkee::ParametersSet ps)
 {
     tapkee::DenseMatrix M = X;
     return guarded([&]() { return tapkee::with(ps).embedUsing(M); });
+}
+// the library's own Eigen callbacks (what embedUsing(matrix) attaches) over an arbitrary index sequence
+Outcome form_eigen_sequence(const Mat& X, tapkee::ParametersSet ps, const std::vector<int>& sequence)
+{
+    tapkee::DenseMatrix M = X;
+    std::vector<tapkee::IndexType> idx(sequence.begin(), sequence.end());
+    tapkee::eigen_kernel_callback kcb(M);
+    tapkee::eigen_distance_callback dcb(M);
+    tapkee::eigen_features_callback fcb(M);
+    return guarded([&]() { return tapkee::embed(idx.begin(), idx.end(), kcb, dcb, fcb, ps); });
 }
 #endif
 
@@ -159,6 +180,22 @@ Outcome form_precomputed(const Mat& X, tapkee::ParametersSet ps)
     std::vector<tapkee::IndexType> idx(N);
     for (int i = 0; i < N; ++i)
         idx[i] = i;
+    tapkee::precomputed_kernel_callback kcb(K);
+    tapkee::precomputed_distance_callback dcb(D);
+    tapkee::eigen_features_callback fcb(F);
+    return guarded([&]() { return tapkee::with(ps).withKernel(kcb).withDistance(dcb).withFeatures(fcb).embedRange(idx.begin(), idx.end()); });
+}
+Outcome form_precomputed_sequence(const Mat& X, tapkee::ParametersSet ps, const std::vector<int>& sequence)
+{
+    int N = (int)X.cols();
+    tapkee::DenseMatrix K(N, N), D(N, N), F = X;
+    for (int a = 0; a < N; ++a)
+        for (int b = 0; b < N; ++b)
+        {
+            K(a, b) = X.col(a).dot(X.col(b));
+            D(a, b) = (X.col(a) - X.col(b)).norm();
+        }
+    std::vector<tapkee::IndexType> idx(sequence.begin(), sequence.end());
     tapkee::precomputed_kernel_callback kcb(K);
     tapkee::precomputed_distance_callback dcb(D);
     tapkee::eigen_features_callback fcb(F);
